@@ -1,4 +1,5 @@
 import NdnProofs.Lemmas.NfdMgmt
+import NdnProofs.Lemmas.NfdBytes
 import NdnGen.C17
 /-!
 # C17 — Prefix registration speaks the forwarder management protocol correctly
@@ -13,6 +14,11 @@ Specification vocabulary (does not mention the implementation):
 * `alt` — commands and returns alternate in the trace and every return belongs to the command in flight;
 * `tsOf` — the signed timestamps in emission order; `autoCmds` — the prefixes of the commands sent for routes;
 * `ClockOk` — the clock hypothesis of the timestamp guard.
+
+The byte-level half (section "bytes on the wire" below) composes the generic TLV codec (C08 round trip) and the
+packet model (C01/C02) into the command name, the command Interest and the response decoder of
+`Ndn.NfdBytes`, for every prefix, every ControlParameters field value, every SignatureTime / SignatureNonce and
+every hash function `H` with 32-byte output.
 
 `Cfg.repaired fe` is the code with the candidate fixes C17-1 … C17-5; `Cfg.unchanged fe` is the unchanged
 tree (except that the unchanged legacy `unregister`, which runs outside the semaphore, is not modelled).
@@ -216,6 +222,177 @@ theorem response_keys (cr : ControlResponseRec) :
   cases cr.body with
   | none => exact ⟨_, rfl, by simp [Function.comp_def]⟩
   | some b => exact ⟨_, rfl, by simp [Function.comp_def]⟩
+
+/-! ### bytes on the wire: command name, command Interest, response (model `Ndn.NfdBytes`) -/
+section Bytes
+open Ndn.Codec Ndn.Packet Ndn.NfdBytes
+
+/-- the schemas the byte-level model is written against are `_encoded_fields` of the live classes
+    ControlParametersValue, ControlParameters and ControlResponse, and they satisfy the hypothesis of the C08
+    theorems -/
+theorem gen_schemas :
+    Ndn.Gen.C17.controlParametersValueLive = cpvFs ∧ Ndn.Gen.C17.controlParametersLive = cpFs ∧
+    Ndn.Gen.C17.controlResponseLive = crFs ∧ wfTop cpFs = true ∧ wfTop crFs = true :=
+  ⟨rfl, rfl, rfl, wf_cp, wf_cr⟩
+
+/-- **command_names_prefix.** Whenever `make_command_v2(module, command, face, name=prefix, **rest)` returns a
+    name, that name is the four head components `/localhost|localhop/nfd/<module>/<command>` followed by exactly
+    one more component, and decoding that component's value with the ControlParameters decoder (the generic
+    `parse` over the schema generated from the source) yields exactly the field values that were given: the
+    requested prefix as `Name` and every other field — for every prefix of well-formed components and all field
+    values that are legal for their fields (`fitsFs`). -/
+theorem command_names_prefix (isLocal : Bool) (module command : Bytes) (pfx : List Bytes) (rest : List Value)
+    (n : List Bytes) (hfit : fitsFs cpvFs (cpvOf pfx rest) = true)
+    (h : commandName isLocal module command (cpvOf pfx rest) = .ok n) :
+    n.length = 5 ∧ n.take 4 = commandHead isLocal module command ∧
+    decodeCommandParams n = .ok [.model (cpvOf pfx rest)] ∧
+    (decodeCommandParams n).toOption.bind namedPrefix = some pfx := by
+  have hd := decode_commandName hfit h
+  obtain ⟨cp, _, _, rfl⟩ := commandName_ok h
+  refine ⟨by simp [commandHead], by simp [commandHead], hd, ?_⟩
+  rw [hd]; rfl
+
+/-- … for the two commands the registerer sends: `/localhost/nfd/rib/register|unregister/<ControlParameters>` -/
+theorem rib_command_names_prefix (isLocal : Bool) (v : Verb) (pfx : List Bytes) (rest : List Value) (n : List Bytes)
+    (hfit : fitsFs cpvFs (cpvOf pfx rest) = true) (h : ribCommandName isLocal v pfx rest = .ok n) :
+    n.take 4 = [tlv 8 (if isLocal then localhostB else localhopB), tlv 8 nfdB, tlv 8 ribB, tlv 8 (verbB v)] ∧
+    (decodeCommandParams n).toOption.bind namedPrefix = some pfx := by
+  obtain ⟨_, h2, _, h4⟩ := command_names_prefix isLocal ribB (verbB v) pfx rest n hfit h
+  exact ⟨h2, h4⟩
+
+example : ribCommandName true .register [[8, 1, 97]] (List.replicate 15 .none) =
+    .ok [[8, 9, 108, 111, 99, 97, 108, 104, 111, 115, 116], [8, 3, 110, 102, 100], [8, 3, 114, 105, 98],
+         [8, 8, 114, 101, 103, 105, 115, 116, 101, 114], [8, 7, 104, 5, 7, 3, 8, 1, 97]] := by rfl
+example : fitsFs cpvFs (cpvOf [[8, 1, 97], [8, 1, 98]] (Value.uint 300 :: List.replicate 14 Value.none)) = true := by decide
+example : (do let n ← ribCommandName false .unregister [[8, 1, 97], [8, 1, 98]] (Value.uint 300 :: List.replicate 14 Value.none)
+              decodeCommandParams n) =
+    .ok [.model (cpvOf [[8, 1, 97], [8, 1, 98]] (Value.uint 300 :: List.replicate 14 Value.none))] := by rfl
+
+/-- **command_signed_v2.** The v2 command Interest — `make_interest(name, param, b'', DigestSha256Signer(
+    for_interest=True))` on a name built by `make_command_v2`, the signer writing `H` of what it is handed — is
+    made without error, `parse_interest` decodes it to the command name followed by the ParametersSha256Digest
+    component, the Interest parameters that went in, empty ApplicationParameters and a SignatureInfo with
+    SignatureType DigestSha256, the given SignatureTime and SignatureNonce; and the forwarder-side checks pass on
+    the ranges the parser reports: the parameters digest is valid (`params_sha256_checker`), the reported signed
+    portion is byte for byte what the signer was handed, and the signature value is `H` of it
+    (`sha256_digest_checker`).  For every prefix and field values, every Interest parameters, every
+    SignatureTime / SignatureNonce below 2^64 and every `H` with 32-byte output; the only size hypothesis is that
+    name and parameters stay below 2^63 bytes. -/
+theorem command_signed_v2 (H : Bytes → Bytes) (hH : ∀ x, (H x).length = 32)
+    (isLocal : Bool) (module command : Bytes) (hm : module.length < 2 ^ 64) (hc : command.length < 2 ^ 64)
+    (cpv : List Value) (n : List Bytes) (h : commandName isLocal module command cpv = .ok n)
+    (mid : List Value) (midB : Bytes) (time nonce : Nat)
+    (hmid : encFields midFs mid = .ok midB) (hfitmid : fitsFs midFs mid = true)
+    (ht : time < 2 ^ 64) (hn : nonce < 2 ^ 64) (hsize : (concatB n).length + midB.length < 2 ^ 63) :
+    ∃ m vals ptrs, commandInterestV2 H n mid time nonce = .ok m ∧
+      parseInterest m.wire = .ok (vals, ptrs) ∧
+      m.finalName = n ++ [2 :: 32 :: H m.digestCovered] ∧
+      vals = List.replicate 7 (Value.uint 0) ++ (Value.name m.finalName :: mid) ++
+             List.replicate 2 (Value.uint (tlv 7 (concatB m.finalName) ++ midB).length) ++
+             [.bytes [], digestSigInfo time nonce, .bytes (H (concatB m.covered)), .none] ∧
+      paramsCheck H ptrs = true ∧
+      concatB ptrs.sigCovered = concatB m.covered ∧
+      ptrs.sigValue = some (H (concatB ptrs.sigCovered)) ∧
+      verifyPtrs (digestScheme H) ptrs = true := by
+  obtain ⟨hname, hnd⟩ := commandName_comps h hm hc
+  exact commandInterestV2_checks H hH n mid midB time nonce hname hnd hmid hfitmid ht hn hsize
+
+set_option maxRecDepth 8000 in
+example :
+    (do let n ← ribCommandName true .register [[8, 1, 97]] (List.replicate 15 .none)
+        let m ← commandInterestV2 (fun _ => List.replicate 32 7) n [.none, .bool, .none, .uint 5, .uint 1000, .none] 1700 9
+        let (_, p) ← parseInterest m.wire
+        pure (m.finalName.length, paramsCheck (fun _ => List.replicate 32 7) p,
+              verifyPtrs (digestScheme (fun _ => List.replicate 32 7)) p, p.sigValue)) =
+    .ok (6, true, true, some (List.replicate 32 7)) := by rfl
+
+/-- **response_roundtrip_bytes.** For a ControlResponse with any status code, status text and (optional) body
+    that are legal for their fields, `parse_response` applied to the bytes the forwarder sends (element 0x65
+    around the encoded ControlResponse): the outer check and the generic decoder give back the encoded values
+    (C08 round trip on the schema generated from the source); the whole function agrees with the model-level
+    `parseResponseRec` on the decoded record; and the dict holds the status code, the status text and, under the
+    name of each ControlParameters field, the value that was encoded for it (`None` when it, or the body, is
+    absent; a `strategy` is shown by its name). -/
+theorem response_roundtrip_bytes (code : Option Nat) (text : Option Bytes) (body : Option (List Value)) (w : Bytes)
+    (hfit : fitsFs crFs (crValues code text body) = true) (henc : encodeResponse code text body = .ok w) :
+    (∃ v, parseAndCheckTl w 0x65 = .ok v ∧ parse crFs false v = .ok (crValues code text body)) ∧
+    parseResponse true w = parseResponseRec true ⟨code, text, body.map (bodyFields cpvFields)⟩ ∧
+    ∃ d, parseResponse true w = .ok d ∧
+      d.lookup "status_code" = some ((code.map DVal.uint).getD .none) ∧
+      d.lookup "status_text" = some ((text.map DVal.text).getD .none) ∧
+      ∀ (i : Nat) (k : String), cpvFields[i]? = some k →
+        d.lookup k = some ((body.map fun vs => dvalOf (vs.getD i .none)).getD .none) := by
+  obtain ⟨h1, h2⟩ := parseResponse_encode code text body w hfit henc true
+  refine ⟨h1, h2, ?_⟩
+  obtain ⟨d, hd, hc, ht, hf⟩ := response_roundtrip ⟨code, text, body.map (bodyFields cpvFields)⟩
+  refine ⟨d, h2.trans hd, by cases code <;> exact hc, by cases text <;> exact ht, ?_⟩
+  intro i k hk
+  rw [hf k (List.mem_of_getElem? hk)]
+  cases body with
+  | none => rfl
+  | some vs =>
+    have hfv : fitsFs cpvFs vs = true := by
+      cases code <;> cases text <;> simp [crFs, crValues, fitsFs, fits] at hfit <;> first | exact hfit | exact hfit.2
+    have hl : cpvFields.length = vs.length := by rw [fitsFs_length cpvFs vs hfv]; rfl
+    simp only [Option.map_some, Option.bind_some, Option.getD_some, dvalOf]
+    rw [lookupField_bodyFields cpvFields vs cpvFields_nodup hl i k hk]
+
+example : encodeResponse (some 200) (some [79, 75]) (some (cpvOf [[8, 1, 97]] (Value.uint 300 :: List.replicate 14 Value.none)))
+    = .ok [101, 18, 102, 1, 200, 103, 2, 79, 75, 104, 9, 7, 3, 8, 1, 97, 105, 2, 1, 44] := by rfl
+example : (parseResponse true [101, 18, 102, 1, 200, 103, 2, 79, 75, 104, 9, 7, 3, 8, 1, 97, 105, 2, 1, 44]).toOption.bind
+    (fun d => d.lookup "face_id") = some (.uint 300) := by rfl
+example : (parseResponse true [101, 3, 102, 1, 147]).toOption.bind (fun d => d.lookup "name") = some .none := by rfl
+
+/-- the forwarder-side check of a legacy (signed-name) command: nine components, the last one holding a
+    SignatureValue element whose value is `H` of the eight components before it -/
+def legacySigOk (H : Bytes → Bytes) (n : List Bytes) : Bool :=
+  n.length == 9 &&
+  match n[8]? with
+  | some c => compValue c == [23, 32] ++ H (concatB (n.take 8))
+  | none => false
+
+/-- **legacy_command_name.** Whenever the legacy `make_command` returns a name, it is the v2 command name (so
+    `command_names_prefix` applies to its fifth component) followed, in this order, by the timestamp and the nonce
+    as 8-byte big-endian generic components that decode back to the numbers signed, a component holding the
+    SignatureInfo element (SignatureType DigestSha256 and nothing else), and a component holding the
+    SignatureValue element, whose value is `H` of the concatenation of all eight preceding components. -/
+theorem legacy_command_name (H : Bytes → Bytes) (hH : ∀ x, (H x).length = 32) (isLocal : Bool)
+    (module command : Bytes) (cpv : List Value) (ts nonce : Nat) (n : List Bytes)
+    (h : legacyCommandName H isLocal module command cpv ts nonce = .ok n) :
+    ∃ n5, commandName isLocal module command cpv = .ok n5 ∧
+      n = n5 ++ [tlv 8 (be8 ts), tlv 8 (be8 nonce), tlv 8 [22, 3, 27, 1, 0],
+                 tlv 8 ([23, 32] ++ H (concatB (n.take 8)))] ∧
+      beVal (compValue (tlv 8 (be8 ts))) = ts ∧ beVal (compValue (tlv 8 (be8 nonce))) = nonce ∧
+      (parseAndCheckTl (compValue (tlv 8 [22, 3, 27, 1, 0])) 22 >>= parse sigInfoFields false) = .ok legacySigInfo ∧
+      legacySigOk H n = true := by
+  obtain ⟨n5, h5, hts, hno, rfl⟩ := legacyCommandName_ok h
+  obtain ⟨cp, _, _, rfl⟩ := commandName_ok h5
+  have h8 : (8 : Nat) < 2 ^ 64 := by decide
+  have hl : ∀ v, (be8 v).length < 2 ^ 64 := fun v => by rw [be8_length]; decide
+  have htake : ((commandHead isLocal module command ++ [tlv 8 cp]) ++ legacyTail ts nonce ++
+      [tlv 8 ([23, 32] ++ H (concatB ((commandHead isLocal module command ++ [tlv 8 cp]) ++ legacyTail ts nonce)))]).take 8
+      = (commandHead isLocal module command ++ [tlv 8 cp]) ++ legacyTail ts nonce := by
+    simp [commandHead, legacyTail]
+  refine ⟨_, h5, ?_, ?_, ?_, ?_, ?_⟩
+  · rw [htake]; simp [legacyTail]
+  · rw [compValue_tlv 8 _ h8 (hl ts)]; exact beVal_be8 ts (by simpa using hts)
+  · rw [compValue_tlv 8 _ h8 (hl nonce)]; exact beVal_be8 nonce (by simpa using hno)
+  · rw [compValue_tlv 8 _ h8 (by decide)]; rfl
+  · have hcv : ∀ x : Bytes, x.length = 32 → compValue (tlv 8 ([23, 32] ++ x)) = [23, 32] ++ x :=
+      fun x hx => compValue_tlv 8 _ h8 (by simp [hx])
+    unfold legacySigOk
+    rw [htake]
+    simp [commandHead, legacyTail]
+    exact hcv _ (hH _)
+
+example : legacyCommandName (fun _ => List.replicate 32 7) true ribB registerB (cpvOf [[8, 1, 97]] (List.replicate 15 .none))
+    1000 5 =
+    .ok [[8, 9, 108, 111, 99, 97, 108, 104, 111, 115, 116], [8, 3, 110, 102, 100], [8, 3, 114, 105, 98],
+         [8, 8, 114, 101, 103, 105, 115, 116, 101, 114], [8, 7, 104, 5, 7, 3, 8, 1, 97],
+         [8, 8, 0, 0, 0, 0, 0, 0, 3, 232], [8, 8, 0, 0, 0, 0, 0, 0, 0, 5], [8, 5, 22, 3, 27, 1, 0],
+         8 :: 34 :: 23 :: 32 :: List.replicate 32 7] := by rfl
+
+end Bytes
 
 /-! ### the defects of the unchanged tree (finding F13), as theorems about the unrepaired configurations -/
 
